@@ -136,6 +136,8 @@ def dec(x, W=None):
     if isinstance(x, dict):
         if "$a" in x:
             return np.array(dec(x["$a"], W))
+        if "$af" in x:
+            return np.asfortranarray(np.array(dec(x["$af"], W)))  # column-major memory layout
         if "$w2d" in x:
             name, r0, r1, c0, c1 = x["$w2d"]
             return W["lw"][name].wells[r0:r1, c0:c1]
@@ -170,6 +172,8 @@ def ref_wells(x, config):
         return [[well_id(r, c) for c in cols] for r in rows]
     if isinstance(x, dict) and "$a" in x:
         return ref_wells(x["$a"], config)
+    if isinstance(x, dict) and "$af" in x:
+        return ref_wells(x["$af"], config)
     return x
 
 
@@ -177,6 +181,8 @@ def ref_vols(x):
     if isinstance(x, dict):
         if "$a" in x:
             return ref_vols(x["$a"])
+        if "$af" in x:
+            return ref_vols(x["$af"])
         if "$hex" in x:
             return float.fromhex(x["$hex"])
         if "$npf" in x:
